@@ -168,6 +168,13 @@ class ModelDriver:
     def new_met(self, m):
         return self.cobra.Metabolite(self.met[m], compartment="e" if m in EXT else "c", name="N" + m)
 
+    def _foreign_met(self, s, m):
+        """the Metabolite object with this id in the model of the other slot (a fresh object if it has none)"""
+        other = self.models.get(3 - s)
+        if other is not None and self.met[m] in other.metabolites:
+            return other.metabolites.get_by_id(self.met[m])
+        return self.new_met(m)
+
     def get_rxn(self, model, r):
         try:
             return model.reactions.get_by_id(self.rx[r])
@@ -364,10 +371,12 @@ class ModelDriver:
                 if self.met[m] in model.metabolites:
                     mo = model.metabolites.get_by_id(self.met[m])
                     form = op.get("form", 0)
-                    # key shapes: the model's own object, its id, or ANOTHER object carrying that id
-                    d[mo if form == 0 else (self.met[m] if form == 1 else self.new_met(m))] = k
+                    # key shapes: the model's own object, its id, ANOTHER object carrying that id, or (3) the
+                    # object of that id in the OTHER model
+                    d[mo if form == 0 else (self.met[m] if form == 1 else
+                                            (self.new_met(m) if form == 2 else self._foreign_met(s, m)))] = k
                 else:
-                    d[self.new_met(m)] = k
+                    d[self._foreign_met(s, m) if op.get("form", 0) == 3 else self.new_met(m)] = k
             if a == "RxnAddMetabolites":
                 rxn.add_metabolites(d, combine=op["combine"])
             else:
@@ -472,6 +481,15 @@ class ModelDriver:
             if robj is None or self.rx[op["r"]] in model.reactions or robj.model is not None:
                 raise Skip("no detached reaction object with that id")
             model.add_reactions([robj])
+            return None
+        if a == "DetachedRename":
+            robj = self.detached[s].get(op["r"])
+            if (robj is None or robj.model is not None or self.rx[op["r"]] in model.reactions
+                    or self.rx[op["new"]] in model.reactions or self.detached[s].get(op["new"]) is not None
+                    or model._contexts or op["new"] == op["r"]):
+                raise Skip("no detached reaction object to rename")
+            robj.id = self.rx[op["new"]]
+            self.detached[s][op["new"]] = self.detached[s].pop(op["r"])
             return None
         if a == "DetachedSetBounds":
             robj = self.detached[s].get(op["r"])
@@ -900,12 +918,11 @@ class ModelDriver:
         for r in RX:
             c = self.rx[r]
             if c in model.reactions:
-                rxn = model.reactions.get_by_id(c)
-                try:
-                    role[rxn.forward_variable.name] = ("f", r)
-                    role[rxn.reverse_variable.name] = ("r", r)
-                except Exception:
-                    pass
+                # the variable names a reaction with this id has -- asked of a fresh object, not of the
+                # one in the model (whose history must not matter)
+                fresh = self.cobra.Reaction(c)
+                role[fresh.id] = ("f", r)
+                role[fresh.reverse_id] = ("r", r)
         cols = {r: {"present": False, "fl": 0, "fu": 0, "rl": 0, "ru": 0} for r in RX}
         seen = {r: set() for r in RX}
         obj = {r: {"f": 0, "r": 0} for r in RX}
